@@ -6,7 +6,7 @@ SPEC = dict(
     harness=['h_seq.c'],
     level='exploration',
     memcheck_cases={'thorough': 1600},
-    rule='seeded histories of 30-80 operations on two vectors or two fixed buffers (element sizes 0,1,2,3,4,7,8,12,16,24,33; buffer capacities 0..40): '
+    rule='seeded histories of 30-80 operations on two vectors or two fixed buffers (element sizes 0,1,2,3,4,7,8,12,16,24,33; buffer capacities 0..40; half of the containers live in caller-provided storage via ctor/dtor instead of new/die): '
          'push/pull at both ends, insert, remove, store (with and without copy callback), erase (with and without destructor), setn, setm, setz, sort, '
          'push_fore+sort_fore, push_back+sort_back, push_sort, search, whole-vector swap, at/of/top/end/foreach; indices and counts drawn from explicit '
          'classes {0, mid, num-1, num, num+1, SIZE_MAX, SIZE_MAX-1, (size_t)-num, huge, in-range}; the capacity state (exactly full / spare slot) is '
@@ -19,7 +19,7 @@ SPEC = dict(
              'buf-refuses-when-full', 'remove-path-full', 'remove-path-spare', 'sort_fore-path-full', 'sort_fore-path-spare',
              'sort_back-path-full', 'sort_back-path-spare', 'push_sort', 'sorted-insert-keeps-order-and-elements', 'sort-sorted-permutation',
              'search-finds-iff-present', 'erase-out-of-range-reports-obounds', 'erase-destroys-each-erased-element-once', 'setz-rederives-capacity',
-             'vec-swap', 'accessors', 'foreach-macros', 'die-destroys-each-element-once', 'pull-from-empty-returns-null'],
+             'vec-swap', 'accessors', 'foreach-macros', 'die-destroys-each-element-once', 'ctor-dtor-on-caller-storage', 'pull-from-empty-returns-null'],
     cov_files=['vec.c', 'buf.c'], cov_cases=600,
     assumptions=_COMMON + [
         'capacities whose byte size overflows size_t (setn/setm/store with counts near SIZE_MAX) are outside the domain',
